@@ -88,6 +88,11 @@ CLAIMED = {
             "After the re-init commit every member's old group must refuse to build further commits (and the simulated delivery service accepts none). ReinitClient::commit must succeed iff the key packages belong to exactly the old members; on success every old member joins through ReinitClient::join with a state (context, tree, authenticator) equal to the creator's at epoch 1, and a party without the old group state cannot join with the same Welcome. Group::branch must succeed iff the chosen parties are current members; each of them at the creator's epoch joins through join_subgroup with equal state; a member sitting at another epoch (other resumption secret) and an outsider must be refused.",
             "trusted: canonical rosters of the old group; mismatched-Welcome variants beyond 'no old state' and 'resumption secret of another epoch' are not generated",
             "DESIGN.md §6.C17"),
+    "C14": ("exploration",
+            "deterministic simulation of mixed-provider groups (each simulated member draws OpenSSL, AWS-LC, RustCrypto or deterministic RustCrypto) with an in-situ differential crypto seam: every deterministic primitive call the protocol makes is evaluated on a second provider and compared; randomised outputs of one provider are consumed by the others through the protocol",
+            "PARTIAL CLAIM. Decided: members using different providers form one working group on suites 1, 2, 3 and 7 (C01 agreement, C08 tree and bounded-liveness oracles over the mixed group: signatures, HPKE ciphertexts and set-ups, Welcome and PSK material made by one provider are consumed by the others); on every hash, MAC, KDF extract / expand, AEAD seal / open, deterministic KEM derivation, signature-key derivation, HPKE open (base and PSK mode), HPKE receiver set-up, KEM public-key validation and signature verification the protocol performs - including the malformed inputs that corrupted traffic pushes into verify / open / validate - the primary and the cross provider must return identical bytes or the identical accept / reject decision; every signature the primary makes must verify under the cross provider and every generated KEM key must open what the cross provider seals to it. NOT decided here: input lengths the protocol never produces (a pure-function sweep, outside this family) and the X.509 validators (no certificate scenario was built).",
+            "trusted: the differential wrapper (crypto.rs); runs on OpenSSL / AWS-LC are not bit-reproducible (their DRBGs), the replay file reproduces the schedule and, for deterministic primitives, the disagreement",
+            "DESIGN.md §6.C14"),
 }
 
 NOT_APPLICABLE = {
